@@ -168,71 +168,95 @@ def run_for_property(prop, tier, scratch, seed=0, only=None):
             todo.append(h)
         cmd_s = ""
         if todo:
-            target = os.path.join(CACHE, "kani-target")
-            os.makedirs(target, exist_ok=True)
-            env = dict(os.environ, CARGO_NET_OFFLINE="true", CARGO_TARGET_DIR=target)
-            jobs = min(len(todo), int(os.environ.get("VERIF_KANI_JOBS", "8")))
-            cmd = kani_cmd([h["name"] for h in todo], jobs)
-            cmd_s = " ".join(cmd)
-            timeout = int(os.environ.get("VERIF_KANI_TIMEOUT", "7200"))
-            try:
-                pr = subprocess.run(cmd, cwd=ov, env=env, capture_output=True, text=True, timeout=timeout)
-            except subprocess.TimeoutExpired:
-                raise Inconclusive("cargo kani timed out after %ds on %s" % (timeout, [h["name"] for h in todo]))
-            txt = pr.stdout + "\n" + pr.stderr
-            if "error: could not compile" in txt or "error[E" in txt:
-                errs = [ln for ln in txt.split("\n") if ln.startswith("error")][:5]
-                raise Inconclusive("overlay does not compile under Kani (changed interface?): %s" % " | ".join(errs))
-            parsed = parse_terse(pr.stdout)
+            # one cargo-kani run at a time across all checks on this machine: concurrent checks share most harnesses, so the
+            # later one finds the results in the cache instead of repeating the work (and the memory) of the first
+            import fcntl
+            os.makedirs(CACHE, exist_ok=True)
+            _lk = open(os.path.join(CACHE, "kani.lock"), "w")
+            fcntl.flock(_lk, fcntl.LOCK_EX)
+            still = []
             for h in todo:
-                hit = [v for k, v in parsed.items() if k.split("::")[-1] == h["name"]]
-                rec = {
-                    "id": "kani:%s" % h["name"], "engine": "kani/cbmc", "kind": h.get("kind", "proved"),
-                    "bound": h.get("bound"), "ok": False, "time_s": 0.0,
-                    "function": "; ".join(h.get("functions", [])), "file": h.get("file", ""),
-                    "props": h["props"], "harness": h["name"],
-                }
-                if not hit or "ok" not in hit[0]:
-                    why = "timed out or produced no result"
-                    if "out of memory" in txt.lower():
-                        why = "ran out of memory"
-                    rec["inconclusive"] = "harness %s %s (per-harness limit %s)" % (
-                        h["name"], why, os.environ.get("VERIF_KANI_HARNESS_TIMEOUT", "2400s"))
-                    out.append(rec)
-                    continue
-                r = hit[0]
-                only_unwind = (not r["ok"] and "unwinding assertion" in r["text"]
-                               and not re.search(r"Failed Checks: (?!unwinding assertion)", r["text"]))
-                if only_unwind:
-                    rec["inconclusive"] = "harness %s: only unwinding assertions failed (the stated bound is too small for this tree; not a violation)" % h["name"]
-                    out.append(rec)
-                    continue
-                if not r["ok"] and ("CBMC timed out" in r["text"] or "out of memory" in r["text"].lower()):
-                    rec["inconclusive"] = "harness %s: CBMC timed out / out of memory (limit %s)" % (
-                        h["name"], os.environ.get("VERIF_KANI_HARNESS_TIMEOUT", "2400s"))
-                    out.append(rec)
-                    continue
-                rec["ok"] = r["ok"]
-                rec["time_s"] = r.get("time_s", 0.0)
-                if not r["ok"]:
-                    fc = [ln for ln in r["text"].split("\n") if "Failed Checks" in ln or ln.strip().startswith("File:")]
-                    rec["failures"] = [{"msg": "; ".join(x.strip() for x in fc)[:600] or "verification failed",
-                                        "source": h["name"], "text": r["text"][-3000:]}]
-                    rec["counterexample"] = {"harness": h["name"]}
-                # vacuity: every cover must be satisfiable
-                mc = re.search(r"\*\* (\d+) of (\d+) cover properties satisfied", r["text"])
-                if mc and mc.group(1) != mc.group(2) and r["ok"]:
-                    rec["ok"] = False
-                    rec["inconclusive"] = ("harness %s: %s of %s cover properties satisfied (vacuous assumption?)"
-                                           % (h["name"], mc.group(1), mc.group(2)))
-                    out.append(rec)
-                    continue
-                rec["cached"] = False
-                os.makedirs(os.path.dirname(h["_cache"]), exist_ok=True)
-                tmp = h["_cache"] + ".%d.tmp" % os.getpid()
-                json.dump(rec, open(tmp, "w"))
-                os.replace(tmp, h["_cache"])
-                out.append(rec)
+                if os.path.exists(h["_cache"]) and not os.environ.get("VERIF_NOCACHE"):
+                    try:
+                        r = json.load(open(h["_cache"]))
+                        r["cached"] = True
+                        out.append(r)
+                        continue
+                    except Exception:
+                        pass
+                still.append(h)
+            todo = still
+        try:
+          if todo:
+              target = os.path.join(CACHE, "kani-target")
+              os.makedirs(target, exist_ok=True)
+              env = dict(os.environ, CARGO_NET_OFFLINE="true", CARGO_TARGET_DIR=target)
+              jobs = min(len(todo), int(os.environ.get("VERIF_KANI_JOBS", "8")))
+              cmd = kani_cmd([h["name"] for h in todo], jobs)
+              cmd_s = " ".join(cmd)
+              timeout = int(os.environ.get("VERIF_KANI_TIMEOUT", "7200"))
+              try:
+                  pr = subprocess.run(cmd, cwd=ov, env=env, capture_output=True, text=True, timeout=timeout)
+              except subprocess.TimeoutExpired:
+                  raise Inconclusive("cargo kani timed out after %ds on %s" % (timeout, [h["name"] for h in todo]))
+              txt = pr.stdout + "\n" + pr.stderr
+              if "error: could not compile" in txt or "error[E" in txt:
+                  errs = [ln for ln in txt.split("\n") if ln.startswith("error")][:5]
+                  raise Inconclusive("overlay does not compile under Kani (changed interface?): %s" % " | ".join(errs))
+              parsed = parse_terse(pr.stdout)
+              for h in todo:
+                  hit = [v for k, v in parsed.items() if k.split("::")[-1] == h["name"]]
+                  rec = {
+                      "id": "kani:%s" % h["name"], "engine": "kani/cbmc", "kind": h.get("kind", "proved"),
+                      "bound": h.get("bound"), "ok": False, "time_s": 0.0,
+                      "function": "; ".join(h.get("functions", [])), "file": h.get("file", ""),
+                      "props": h["props"], "harness": h["name"],
+                  }
+                  if not hit or "ok" not in hit[0]:
+                      why = "timed out or produced no result"
+                      if "out of memory" in txt.lower():
+                          why = "ran out of memory"
+                      rec["inconclusive"] = "harness %s %s (per-harness limit %s)" % (
+                          h["name"], why, os.environ.get("VERIF_KANI_HARNESS_TIMEOUT", "2400s"))
+                      out.append(rec)
+                      continue
+                  r = hit[0]
+                  only_unwind = (not r["ok"] and "unwinding assertion" in r["text"]
+                                 and not re.search(r"Failed Checks: (?!unwinding assertion)", r["text"]))
+                  if only_unwind:
+                      rec["inconclusive"] = "harness %s: only unwinding assertions failed (the stated bound is too small for this tree; not a violation)" % h["name"]
+                      out.append(rec)
+                      continue
+                  if not r["ok"] and ("CBMC timed out" in r["text"] or "out of memory" in r["text"].lower()):
+                      rec["inconclusive"] = "harness %s: CBMC timed out / out of memory (limit %s)" % (
+                          h["name"], os.environ.get("VERIF_KANI_HARNESS_TIMEOUT", "2400s"))
+                      out.append(rec)
+                      continue
+                  rec["ok"] = r["ok"]
+                  rec["time_s"] = r.get("time_s", 0.0)
+                  if not r["ok"]:
+                      fc = [ln for ln in r["text"].split("\n") if "Failed Checks" in ln or ln.strip().startswith("File:")]
+                      rec["failures"] = [{"msg": "; ".join(x.strip() for x in fc)[:600] or "verification failed",
+                                          "source": h["name"], "text": r["text"][-3000:]}]
+                      rec["counterexample"] = {"harness": h["name"]}
+                  # vacuity: every cover must be satisfiable
+                  mc = re.search(r"\*\* (\d+) of (\d+) cover properties satisfied", r["text"])
+                  if mc and mc.group(1) != mc.group(2) and r["ok"]:
+                      rec["ok"] = False
+                      rec["inconclusive"] = ("harness %s: %s of %s cover properties satisfied (vacuous assumption?)"
+                                             % (h["name"], mc.group(1), mc.group(2)))
+                      out.append(rec)
+                      continue
+                  rec["cached"] = False
+                  os.makedirs(os.path.dirname(h["_cache"]), exist_ok=True)
+                  tmp = h["_cache"] + ".%d.tmp" % os.getpid()
+                  json.dump(rec, open(tmp, "w"))
+                  os.replace(tmp, h["_cache"])
+                  out.append(rec)
+        finally:
+            if "_lk" in locals():
+                fcntl.flock(_lk, fcntl.LOCK_UN)
+                _lk.close()
         trusted = scan_trusted()
         return {"harnesses": out, "trusted": trusted, "cmd": cmd_s or "cargo kani (all results from content-addressed cache)",
                 "wall_s": time.time() - t0}
